@@ -47,7 +47,7 @@ def mstWith (chk : Bool) (st : State α) (dend : Dendrogram α) (data : Array α
   let active ← st.active.remove chk 0
   let st := { st with active := active }
   let (st, dend, M, _) ← iterM (mstIter chk) (M.n - 1) (st, dend, M, 0)
-  let (uf, dend) ← relabel .single dend
+  let (uf, dend) ← relabel .single st.set dend
   pure ({ st with set := uf }, dend, M)
 
 end Kodama
